@@ -205,7 +205,7 @@ def cases_for_group(seed, shard, gi, methods):
     members = [gen_member(r, rows, j) for j in range(n)]
     k = 0
     for i in range(n):
-        for line in range(1, nlines):
+        for line in range(0, nlines):
             for kind in ("argtype", "pyexc"):
                 method = methods[k % len(methods)]
                 k += 1
